@@ -191,6 +191,11 @@ let oracle_constraints (q : string) (impl : string) : string =
             | Some b, Some (_, p, m) when (m = "" || not (contains_sub b m)) && (p = "" || not (contains_sub b p)) -> None
             | Some _, Some _ -> Some ("response " ^ i ^ " body leaks the error message or the file path")
             | _ -> Some ("response " ^ i ^ " is not a failed response"))
+        | [ "bodyout"; i; j ] -> (
+            match body (int_of_string i), words (int_of_string j) with
+            | Some b, [ "OK"; o ] when b = unhex o -> None
+            | Some "", [ "OK" ] -> None
+            | _ -> Some ("response " ^ i ^ " body must be exactly the output of operation " ^ j))
         | [ "bodyeq"; i; j ] ->
             if body (int_of_string i) = body (int_of_string j) && body (int_of_string i) <> None then None
             else Some ("responses " ^ i ^ " and " ^ j ^ " must have the same body")
